@@ -594,6 +594,8 @@ def run(shard, ctx):
                             sgm.log = []
                             try:
                                 obj.execute(TestUnitReady(E.spc.TEST_UNIT_READY))
+                                if bytes(sgm.log[0]["cdb"]) != bytes(6):
+                                    ctx.fail("C19:%s.first_command_altered" % cfg, "TEST UNIT READY on the device opened on %r reached the binding as %s" % (dev, bytes(sgm.log[0]["cdb"]).hex()), wit)
                                 fl = fcntl.fcntl(sgm.log[0]["file"].fileno(), fcntl.F_GETFL) & os.O_ACCMODE
                                 if fl != mode:
                                     ctx.fail("C19:%s.handle_access_mode" % cfg, "read_write=%s but the handle given to the binding has access mode %d" % (rw, fl), wit)
